@@ -275,12 +275,12 @@ class Engine:
             hyps = hy
         else:
             g = goal; hyps = list(st.pc)
-        if z3.is_true(z3.simplify(g)) if not z3.is_quantifier(g) else False:
-            # trivially true goals are still counted
-            pass
-        oid = '%s%s.%d' % (self.prefix, kind, len(self.obligations))
-        ob = Obligation(oid, hyps, g, kind, text, self.prefix, skolems)
-        self.obligations.append(ob)
+        parts = list(g.children()) if (z3.is_and(g) and isinstance(goal, Quant)) else [g]
+        ob = None
+        for n_, gp in enumerate(parts):
+            oid = '%s%s.%d' % (self.prefix, kind, len(self.obligations))
+            ob = Obligation(oid, hyps, gp, kind, text + (' [conjunct %d]' % (n_ + 1) if len(parts) > 1 else ''), self.prefix, skolems)
+            self.obligations.append(ob)
         return ob
 
     # ------------------------------------------------------------ IR expressions
@@ -675,8 +675,8 @@ class Engine:
             if n in bound: return bound[n]
             if n in st.ghost: return st.ghost[n]
             env = st.env
-            if n in env: return env[n]
             if st.scope and n in st.scope and st.scope[n] in env: return env[st.scope[n]]
+            if n in env: return env[n]
             if ('$' + n) in env: return env['$' + n]
             if ('::' + n) in env: return env['::' + n]
             raise E2Error('clause name %r does not resolve in %s' % (n, self.prefix))
